@@ -173,5 +173,31 @@ Fixpoint run (H : nat -> nat -> nat -> nat) (n : nat) (s : state) (evs : list ev
   | (h, m) :: r => let '(o, s1) := step H n s h m in (o, s1) :: run H (S n) s1 r
   end.
 
-Definition final (H : nat -> nat -> nat -> nat) (n : nat) (s : state) (evs : list event) : state :=
-  last (map snd (run H n s evs)) s.
+(** the state after a history *)
+Fixpoint final (H : nat -> nat -> nat -> nat) (n : nat) (s : state) (evs : list event) : state :=
+  match evs with
+  | [] => s
+  | (h, m) :: r => final H (S n) (snd (step H n s h m)) r
+  end.
+
+(** the state in which event number [j] of the history [evs] (started at position 0) is handled *)
+Definition state_before (H : nat -> nat -> nat -> nat) (s0 : state) (evs : list event) (j : nat) : state :=
+  final H 0 s0 (firstn j evs).
+
+(** ghost log: (position of an accepted vote, origin of the prevote entry it consumed) *)
+Definition consume_at (H : nat -> nat -> nat -> nat) (n : nat) (s : state) (h : Z) (m : msg)
+  : list (nat * nat) :=
+  match m with
+  | Vote _ v _ _ _ _ _ =>
+      if accepted (fst (step H n s h m))
+      then match prevotes s v with Some p => [(n, p_origin p)] | None => [] end
+      else []
+  | _ => []
+  end.
+
+Fixpoint consumed (H : nat -> nat -> nat -> nat) (n : nat) (s : state) (evs : list event)
+  : list (nat * nat) :=
+  match evs with
+  | [] => []
+  | (h, m) :: r => consume_at H n s h m ++ consumed H (S n) (snd (step H n s h m)) r
+  end.
